@@ -33,9 +33,16 @@ def _collect(repo, W, clause, rule, only_funcs=None):
         # function has; a clash that involves an inferred anonymous space (filter / sorted / loop spaces, marked #) may be an artefact of the inference
         spaces = re.findall(r"\[([^\]]*)\]", detail)
         named = bool(spaces) and all(("#" not in sp and "?" not in sp and "None" not in sp) for sp in spaces)
+        sample_case = False
+        # a random.sample(...) selection is a definite re-numbering, not an artefact of the inference: positions in the selected list are not positions in the full list.
+        # A clash between a named space and (a join with) a selection of it stays a contradiction whatever shape the function has.
+        if not named and spaces and all("?" not in sp and "None" not in sp for sp in spaces) and any("#" not in sp for sp in spaces):
+            anon = [a for sp in spaces for a in re.findall(r"(\w+)#\d+", sp)]
+            named = sample_case = bool(anon) and all(a == "sample" for a in anon)
         obs.append(Ob(rule, clause, fn, node, ok, "%s: %s" % (what, detail),
                       slot="%s:%s" % (what, re.sub(r"\s+", " ", ast.unparse(node))[:100]),
-                      positive="robust" if (not ok and named and what in ("membership", "compare-idx", "map-lookup", "set-op", "extend-map-key", "extend-map-value")) else True))
+                      positive="robust" if (not ok and named and (what in ("membership", "compare-idx", "map-lookup", "set-op", "extend-map-key", "extend-map-value")
+                                                                   or (sample_case and what == "subscript"))) else True))
     return obs
 
 
